@@ -17,6 +17,8 @@ class CGen:
         rnd = self.rnd
         base = rnd.choice(scopevars) if scopevars and rnd.random() < 0.6 else rnd.choice(self.nts)
         steps = [step("rule", base)]
+        if rnd.random() < 0.45:
+            return steps        # a plain symbol: the selectors that match something on most trees
 
         def maybe_bracket():
             r = rnd.random()
@@ -60,7 +62,7 @@ class CGen:
 
     def ratom(self, scopevars):
         rnd = self.rnd
-        kind = rnd.choice(["streq", "strne", "lengt", "intgt", "intle", "starts"])
+        kind = rnd.choice(["streq", "strne", "lengt", "intgt", "intle", "starts", "halflt", "halfgt"])
         sel = self.rsel(scopevars)
         st = self.sel_text(sel)
         base = {"f": "atom", "kind": kind, "lit": [], "k": 0, "sel": sel}
@@ -75,6 +77,10 @@ class CGen:
         if kind == "lengt":
             base["k"] = rnd.choice([0, 1, 2])
             return base, "len(str(%s)) > %d" % (st, base["k"])
+        if kind in ("halflt", "halfgt"):
+            # float-valued sides; the bound is one of the numbers the texts spell, so that both sides are often equal
+            base["k"] = rnd.choice([0, 1, 2, 3, 7, 10, 12, 17])
+            return base, "int(%s) / 2 %s %r" % (st, "<" if kind == "halflt" else ">", base["k"] / 2)
         base["k"] = rnd.choice(self.ints)
         if kind == "intgt":
             return base, "int(%s) > %d" % (st, base["k"])
@@ -83,10 +89,11 @@ class CGen:
     def rcmp2(self, scopevars):
         """a comparison of two symbols (typically one bound by a quantifier and one free)"""
         rnd = self.rnd
-        kind = rnd.choice(["intle", "intlt", "streq", "strne"])
+        kind = rnd.choice(["intle", "intlt", "streq", "strne", "halflt"])
         s1, s2 = self.rsel(scopevars), self.rsel([])
         t1, t2 = self.sel_text(s1), self.sel_text(s2)
-        text = {"intle": "int(%s) <= int(%s)", "intlt": "int(%s) < int(%s)", "streq": "str(%s) == str(%s)", "strne": "str(%s) != str(%s)"}[kind] % (t1, t2)
+        text = {"intle": "int(%s) <= int(%s)", "intlt": "int(%s) < int(%s)", "streq": "str(%s) == str(%s)", "strne": "str(%s) != str(%s)",
+                "halflt": "int(%s) / 2 < int(%s) / 2"}[kind] % (t1, t2)
         return {"f": "cmp2", "kind": kind, "sel": s1, "sel2": s2}, text
 
     def rleaf(self, scopevars):
